@@ -30,8 +30,10 @@ OWN_B = {"update-raises", "req-unmet", "extrapolating-get", "illegal-update", "r
          "time-not-increasing"}
 
 
-def generate(tape, tier="quick"):
+def generate(tape, tier="quick", force_regime=None):
     regime = tape.weighted([("b", 6), ("a", 4), ("c", 3), ("a2", 2), ("d", 1), ("n", 2), ("b2", 2)])
+    if force_regime:
+        regime = force_regime
     b2 = regime == "b2"      # delay-resolved ring whose initial data has to travel once around the ring in connect
     if b2:
         regime = "b"
@@ -176,12 +178,24 @@ def generate(tape, tier="quick"):
         if a2:
             for r in (ring[1:] if b2 else ring):
                 comps[r]["init_dep"] = True
+            if b2:
+                # the first ring member publishes as soon as its forcing (a tail input) arrived, while it still
+                # waits for the feedback that travels around the ring
+                comps[ring[0]]["_forced"] = True
         cyc = {"link": cl, "regime": regime, "need": sum_max, "initial_data_travels": b2}
 
     order = tape.shuffle(list(range(len(planned))))
     where = {}
     for k in order:
         where[k] = make_link(*planned[k])
+    for ci, cc in enumerate(comps):
+        if cc.pop("_forced", False):
+            tails = [comps[ci]["inputs"][l["dst"][1]]["name"] for l in links
+                     if l["dst"][0] == ci and l["src"][0] not in ring and comps[l["src"][0]]["kind"] == "sim"]
+            if tails:
+                for nme in tails:
+                    next(i for i in cc["inputs"] if i["name"] == nme)["initial_pull"] = True
+                cc["init_dep"] = tails
     if cyc:
         cyc["link"] = where[cyc["link"]]
     sims = [c for c in comps if c["kind"] == "sim"]
